@@ -411,6 +411,88 @@ def ints_part(run, bulk, np):
             run.trace_validated()
 
 
+def layouts_part(run, bulk, np):
+    """growth: element / load cards written by their dedicated writers and read by the generic card reader, against the field layouts of the
+    spec (BulkLists Mode "layouts")"""
+    res = tlc.run("BulkLists", "MC_BulkLists_layouts.cfg", timeout=600)
+    if res.violation:
+        run.add_tlc("MC_BulkLists_layouts.cfg", res)
+        run.violation("TLC: %s on the BulkLists model" % res.violation, {"tlc": res.error_text()}, {"where": "model"})
+        return
+    run.add_tlc("MC_BulkLists_layouts.cfg", res, "field layouts of RBE2 / MPC / TABDMP1 for 1..12 entries, CONM2, TLOAD1, TLOAD2; LayoutLaws")
+    spec = "BulkLists.Layouts"
+    rng = np.random.default_rng(run.seed + 5)
+
+    def trim(l):
+        l = list(l)
+        while l and l[-1] == "":
+            l.pop()
+        return l
+
+    def same(got, exp):
+        got, exp = trim(got), trim(exp)
+        return len(got) == len(exp) and all((g == e) if isinstance(e, (str, int)) else (isinstance(g, float) and abs(g - e) <= 1e-6 * abs(e)) for g, e in zip(got, exp))
+
+    def judge(what, card, txt, exp, case):
+        try:
+            got = bulk.rdcards(io.StringIO(txt), card, return_var="list")
+        except Exception as ex:
+            return run.deviation(spec, "%s: rdcards raised %r" % (what, ex), dict(case, text=txt))
+        if got is None or len(got) != 1 or not same(got[0], exp):
+            run.deviation(spec, "%s: the generic reader returns %r, the layout says %r" % (what, got, exp), dict(case, text=txt))
+
+    for n, lay in res.tagged("LAYOUT"):
+        n = int(n)
+        ids = [int(x) for x in rng.choice(np.arange(1, 99999), n + 3, replace=False)]
+        vals = {"eid": ids[0], "indep": ids[1], "dof": int(rng.choice([123456, 123, 13, 2])), "": ""}
+        vals.update({"dep%d" % (i + 1): ids[3 + i] for i in range(n)})
+        case = {"entries": n}
+        run.case(("layout", n), nontrivial=n > 5, part="card layouts (growth)")
+        try:
+            f = io.StringIO()
+            bulk.wtrbe2(f, vals["eid"], vals["indep"], vals["dof"], [vals["dep%d" % (i + 1)] for i in range(n)])
+            judge("wtrbe2", "rbe2", f.getvalue(), [vals[x] for x in lay["rbe2"]], case)
+            # MPC: term 1 is the dependent DOF
+            g = [int(x) for x in rng.choice(np.arange(1, 9999), n, replace=False)]
+            c = [int(x) for x in rng.integers(1, 7, n)]
+            a = [float(x) for x in rng.choice([-2.0, -0.5, 0.25, 1.0, 1.5, 3.0], n)]
+            mv = {"sid": 7, "": ""}
+            for k in range(n):
+                mv.update({"g%d" % (k + 1): g[k], "c%d" % (k + 1): c[k], "a%d" % (k + 1): a[k]})
+            if n >= 2:
+                f = io.StringIO()
+                bulk.wtmpc(f, 7, np.array([g[0], c[0]]), a[0], np.array([[g[k], c[k]] for k in range(1, n)]), np.array(a[1:]))
+                judge("wtmpc", "mpc", f.getvalue(), [mv[x] for x in lay["mpc"]], case)
+            fr = [0.5 * (k + 1) for k in range(n)]
+            gd = [0.01 * (k + 1) for k in range(n)]
+            tv = {"id": 9, "type": "CRIT", "": "", "ENDT": "ENDT"}
+            for k in range(n):
+                tv.update({"f%d" % (k + 1): fr[k], "g%d" % (k + 1): gd[k]})
+            if n >= 2:                       # a damping table needs two points (documented)
+                f = io.StringIO()
+                bulk.wttabdmp1(f, 9, fr, gd)
+                judge("wttabdmp1", "tabdmp1", f.getvalue(), [tv[x] for x in lay["tabdmp1"]], case)
+            if n <= 3:
+                off = [None, [4.0, 5.0, 6.0], [0.5, -1.5, 2.5]][n - 1]
+                offd = [None, [0.125, 0.25, 0.5], None][n - 1]
+                cv = {"eid": 5, "gid": 100 + n, "cid": n - 1, "mass": 12.5 * n, "": "", "i11": 1.0 * n, "i22": 2.0, "i33": 3.0}
+                cv.update(dict(zip(("x1", "x2", "x3"), off or [0.0, 0.0, 0.0])))
+                cv.update(dict(zip(("i21", "i31", "i32"), offd or [0.0, 0.0, 0.0])))
+                f = io.StringIO()
+                bulk.wtconm2(f, 5, 100 + n, n - 1, 12.5 * n, [1.0 * n, 2.0, 3.0], offd, off)
+                judge("wtconm2", "conm2", f.getvalue(), [cv[x] for x in lay["conm2"]], case)
+                lv = {"sid": 9, "exciteid": 10 + n, "delay": 0, "type": ["LOAD", "DISP", "ACCE"][n - 1], "tid": 33, "t1": 0.5, "t2": 1.5, "f": 2.0 * n, "p": 10.0, "c": 0.25, "b": 0.125}
+                f = io.StringIO()
+                bulk.wttload1(f, 9, 10 + n, 0, lv["type"].lower(), 33)
+                judge("wttload1", "tload1", f.getvalue(), [lv[x] for x in lay["tload1"]], case)
+                f = io.StringIO()
+                bulk.wttload2(f, 9, 10 + n, 0, lv["type"].lower(), 0.5, 1.5, 2.0 * n, 10.0, 0.25, 0.125)
+                judge("wttload2", "tload2", f.getvalue(), [lv[x] for x in lay["tload2"]], case)
+        except Exception as ex:
+            run.deviation(spec, "writer raised %r" % ex, case)
+        run.trace_validated()
+
+
 def geometry_part(run, bulk, np):
     """GRID / CORD2x / USET-to-bulk round trips (values to field precision, ids and order exact)"""
     from pyyeti.nastran import n2p
@@ -519,6 +601,7 @@ def body(run: Run, replay):
     lists_part(run, bulk, np)
     perms_part(run, bulk, np)
     ints_part(run, bulk, np)
+    layouts_part(run, bulk, np)
     dmig_part(run, bulk, np, pd)
     geometry_part(run, bulk, np)
 
